@@ -2,3 +2,4 @@ import Atlas.Base.Sha256
 import Atlas.Revision
 import Atlas.Pending
 import Atlas.Exec
+import Atlas.Hash
